@@ -47,6 +47,10 @@ cls(HK, fields={"accepted": "bool", "http_version": "str", "connection_tokens": 
     inv=[], rely=[("Handshake.rely.accepted-monotone", "implies(old(self.accepted), self.accepted)", "C11")])
 
 fn(HK + ".__init__", params={"headers": "hdrs", "http_version": "str"},
+   # wsproto's split_comma_header decodes the value as ASCII: a Connection / Sec-WebSocket-Protocol /
+   # Sec-WebSocket-Extensions value with a byte over 0x7f raises (finding F4j: it reaches the
+   # connection handler through WSStream.handle)
+   raises={"UnicodeDecodeError": None},
    loops={0: {"locals": {"name": "bstr", "value": "bstr"}}},
    ensures=[("Handshake.init", "not self.accepted and self.http_version == http_version", "C11")],
    # trusted one-liner about the header scan (an existential loop invariant is out of reach)
